@@ -484,7 +484,12 @@ func c05Verify(c *Ctx, verify, adPay, epPay *Fn) {
 		if !ok || c.RetX(ret, 1).Op == "nil" {
 			continue
 		}
-		_, notSeen := c.GuardedB(b, Op("phi", "seenTopLevelProv"), false)
+		notSeen := false
+		for _, fct := range c.FactsAt(b) {
+			if !fct.Val && c05MainSeenWitness(c, fct.Cond) {
+				notSeen = true
+			}
+		}
 		_, some := c.GuardedB(b, Op("binop", ">", Op("builtin", "len", Field("Providers", Any())), Const("0")), true)
 		if notSeen && some {
 			okMain = true
@@ -561,4 +566,68 @@ func c05Records(c *Ctx, verify *Fn, adPayFn, epPayFn *ssa.Function) {
 		}
 	}
 	c.Floor("C05.S4-record-types", 5)
+}
+
+// c05MainSeenWitness: x is true exactly when some extended-provider entry is
+// the advertisement's own provider — a flag set in the loop on the
+// p.ID == ad.Provider edge, or slices.ContainsFunc over the entries with
+// that comparison as predicate.
+func c05MainSeenWitness(c *Ctx, x *X) bool {
+	x = strip(x)
+	if x == nil {
+		return false
+	}
+	same := Bin("==", Field("ID", Any()), Field("Provider", Any()))
+	if ph, ok := x.V.(*ssa.Phi); ok {
+		set := false
+		var walk func(ph *ssa.Phi, d int) bool
+		walk = func(ph *ssa.Phi, d int) bool {
+			for i, e := range ph.Edges {
+				switch v := e.(type) {
+				case *ssa.Const:
+					if v.Value != nil && v.Value.ExactString() == "true" {
+						pred := ph.Block().Preds[i]
+						okEdge := false
+						for _, f := range append(c.FactsAt(pred), edgeFact(c, pred, ph.Block())...) {
+							if _, m := Match(same, f.Cond); m && f.Val {
+								okEdge = true
+							}
+						}
+						if !okEdge {
+							return false // set to true somewhere else
+						}
+						set = true
+					}
+				case *ssa.Phi:
+					if v != ph && d < 4 && !walk(v, d+1) {
+						return false
+					}
+				default:
+					return false
+				}
+			}
+			return true
+		}
+		return walk(ph, 0) && set
+	}
+	if x.Op == "call" && strings.Contains(x.Name, "slices.ContainsFunc") && len(x.Args) == 2 {
+		if _, m := Match(Field("Providers", Any()), x.Args[0]); !m {
+			return false
+		}
+		pred := funcValueTarget(x.Args[1].V)
+		if pred == nil || len(pred.Params) != 1 {
+			return false
+		}
+		ok := false
+		for _, b := range pred.Blocks {
+			if ret, isRet := b.Instrs[len(b.Instrs)-1].(*ssa.Return); isRet && len(ret.Results) == 1 {
+				_, ok = Match(Bin("==", Field("ID", ParamLike()), Field("Provider", Any())), c.RetX(ret, 0))
+				if !ok {
+					return false
+				}
+			}
+		}
+		return ok
+	}
+	return false
 }
